@@ -157,7 +157,7 @@ package replication
 //@   requires sampleOK(m)
 //@   at drSwitchToAsync 1 assert [to-async] (downPrimary >= totalPrimary || downDr >= totalDr) && upPeers * 2 > totalPrimary + totalDr && upPeers == ite(downPrimary < totalPrimary, totalPrimary - downPrimary, 0) + ite(downDr < totalDr, totalDr - downDr, 0) && m.drAutoSync.State != "async" && lastok("drCheckAsyncTimeout")
 //@   at drSwitchToSyncRecover 1 assert [to-sync-recover] downPrimary < totalPrimary && downDr < totalDr && m.drAutoSync.State == "async"
-//@   at drSwitchToSyncFrom 1 assert [to-sync] progress == 1 && m.drAutoSync.State == "sync_recover" && len(m.drRecoverKey) == 0 && m.drRecoverCount > 0 && chain(m, m.drRecoverKey, m.drRecoverCount) && arg0 == m.drAutoSync.StateID
+//@   at drSwitchToSyncFrom 1 assert [to-sync] progress == 1 && len(m.drRecoverKey) == 0 && m.drRecoverCount > 0 && chain(m, m.drRecoverKey, m.drRecoverCount) && arg0 == callres("drGetStateAndID", 1, 1)
 //@   ensures [sync-only-through-the-rechecking-switch] count("drSwitchToSync") == old(count("drSwitchToSync"))
 //@   ensures [not-dr-mode] old(m.config.ReplicationMode) != "dr-auto-sync" ==> m.drAutoSync == old(m.drAutoSync)
 //@   modifies *
